@@ -309,6 +309,19 @@ def run(chk: common.Check):
             try_run(chk, found, what + (" (--protonate-all)" if opts else ""), remove_atoms(frag, set(s)), opts, ignore)
             nrun += 1
             chk.count(1, key=("window", tname, s, bool(opts)))
+    # the residues at the ends of every chain (not reachable as the middle of a window): each backbone / terminal atom removed singly and in
+    # pairs, in the whole structure (the chain ends interact with acids elsewhere through the backbone terms)
+    for n in ["3SGB-subset.pdb"] + (["1HPX.pdb"] if chk.thorough else []):
+        t = structures.read(n)
+        L = t.splitlines()
+        rs = [r for r in structures.residues(t) if r["tag"] == "ATOM  "]
+        ends = [r for k, r in enumerate(rs) if k == 0 or k == len(rs) - 1 or rs[k - 1]["chain"] != r["chain"] or rs[k + 1]["chain"] != r["chain"]]
+        for r in ends:
+            bb = [j for j in r["lines"] if L[j][12:16].strip() in ("N", "CA", "C", "O", "OXT")]
+            for sset in [(j,) for j in bb] + ([c for c in itertools.combinations(bb, 2)] if chk.thorough else [(bb[0], bb[-1])] if len(bb) > 1 else []):
+                what = f"{n} chain end {r['name']}{r['num'].strip()}{r['chain']} without {[L[j][12:16].strip() for j in sset]}"
+                try_run(chk, found, what, remove_atoms(t, set(sset)), [], ignore)
+                chk.count(1, key=("chain-end", n, r["num"], sset))
     # random multi-atom removal on whole structures, whole residues, termini, ligand atoms
     for n in ["3SGB-subset.pdb", "1HPX.pdb"] + (["1FTJ-Chain-A.pdb", "3SGB.pdb", "4DFR.pdb"] if chk.thorough else []):
         t = structures.read(n)
